@@ -25,10 +25,10 @@ static void env_step(void)
     if (who == 1 && t_pc == 0) {
         target_done_writes = 1;                   /* the target's function has returned: its last write */
         /* step A may have to wait for the joiner's p_link (spin): only schedulable when it would not spin forever */
-        if (!((ULT1.thread.request.val & ABTI_THREAD_REQ_JOIN) && ULT1.ctx.p_link.val.val == NULL)) { ABTI_ythread_resume_joiner(&ES1, &ULT1); t_pc = 1; }
+        if (!((ULT1.thread.request.val & ABTI_THREAD_REQ_JOIN) && ULT1.ctx.p_link.val.val == NULL)) { t_pc = -1; /* in progress: a nested environment step must not start it again */ ABTI_ythread_resume_joiner(&ES1, &ULT1); t_pc = 1; }
         else target_done_writes = 0;
     } else if (who == 2 && t_pc == 1) {
-        ABTI_ythread_callback_exit(&ULT1); t_pc = 2;
+        t_pc = -2; ABTI_ythread_callback_exit(&ULT1); t_pc = 2;
         __CPROVER_assert(ULT1.thread.state.val == ABT_THREAD_STATE_TERMINATED, "terminate stores TERMINATED");
     }
     vr_env_noblock = 0;
